@@ -144,7 +144,7 @@ READER_TB = [
 ]
 
 PROPS["C04"] = {
-    "lean": ["WsVerif.Props.C04", "WsVerif.Props.C04Cb", "WsVerif.Props.C04Discard", "WsVerif.Props.C04DiscardMsg", "WsVerif.Props.C04DiscardText", "WsVerif.Props.C04ReadMessage", "WsVerif.Bridge.C04"],
+    "lean": ["WsVerif.Props.C04", "WsVerif.Props.C04Cb", "WsVerif.Props.C04Discard", "WsVerif.Props.C04DiscardMsg", "WsVerif.Props.C04DiscardText", "WsVerif.Props.C04ReadMessage", "WsVerif.Props.C04ReadAll", "WsVerif.Bridge.C04"],
     "rule": "Valid frame streams from a grammar (1-4 messages, 1-4 fragments incl. empty ones, ping/pong with 0..125-byte payloads between "
             "fragments and between messages, payload classes 0,1,2,7,8,125,126,300 (+70000 in thorough), text built from 1-4-byte code "
             "points, both sides) replayed under transport chunkings {whole,1,2,3,7,random}, EOF and data-with-EOF transports, through "
